@@ -85,7 +85,8 @@ func DefaultFormatter(buf []byte, n Number, f Format) ([]byte, error) {
 	b.WriteString(toTens(r, f))
 	b.WriteString(toUnits(i, f))
 	if f&FormatLowerCase != 0 {
-		return toLower(b.Bytes()), nil
+		// lower only appended roman number, not bytes already present in passed buffer
+		toLower(b.Bytes()[len(buf):])
 	}
 	return b.Bytes(), nil
 }
